@@ -141,8 +141,19 @@ class CheckContext:
         t0 = time.time()
         try:
             fn(b)
-        except Exception:
+        except Exception as e:
             b.error = traceback.format_exc(limit=8)
+            # the harness only feeds inputs of the property's domain: when the code under test itself
+            # raises on one (innermost frame inside the repository), that is a failing case, not an
+            # undecided check
+            tb = traceback.extract_tb(e.__traceback__)
+            root = os.path.realpath(self.repo_root) + os.sep
+            if tb and os.path.realpath(tb[-1].filename).startswith(root):
+                b.evaluations += 1
+                b.failures.append({"input": "the harness was stopped by an exception raised inside the code under test",
+                                   "detail": {"exception": f"{type(e).__name__}: {e}"[:300],
+                                              "raised_at": f"{os.path.relpath(tb[-1].filename, root)}:{tb[-1].lineno} in {tb[-1].name}",
+                                              "called_from": [f"{os.path.basename(f.filename)}:{f.lineno}" for f in tb if not os.path.realpath(f.filename).startswith(root)][-2:]}})
         b.time = time.time() - t0
         self.bounded_results.append(b)
         return b
